@@ -107,10 +107,100 @@ func (eng *Engine) callResolved(fn, callee *ssa.Function, bind []AV, in ssa.Call
 	if !eng.p.InModule(callee) {
 		return eng.execStd(callee, in, args, env)
 	}
+	if eng.rec[callee] {
+		// a parser combinator on a recursive cycle, instantiated by a thin wrapper with its operator and
+		// sub-parsers known (parseAnd = parseBinary("AND", t.parseAtom)): it is analysed inline with those
+		// values; a nested call of the very same instantiation is the recursion of the wrapper itself
+		if key, ok := eng.combinatorKey(callee, args); ok {
+			for _, fr := range eng.combStack {
+				if fr.key == key {
+					return eng.callSummary(fr.wrapper, in, []AV{args[0]}, env)
+				}
+			}
+			if fn != callee && eng.thinWrapperCall(fn, callee, in) {
+				eng.combStack = append(eng.combStack, combFrame{key: key, wrapper: fn})
+				outs := eng.inline(callee, in, args, bind, env)
+				eng.combStack = eng.combStack[:len(eng.combStack)-1]
+				return outs
+			}
+		}
+	}
 	if eng.rec[callee] || len(eng.stack) > 40 {
 		return eng.callSummary(callee, in, args, env)
 	}
 	return eng.inline(callee, in, args, bind, env)
+}
+
+type combFrame struct {
+	key     string
+	wrapper *ssa.Function
+}
+
+// combinatorKey: callee takes at least one function-typed parameter and every argument other than the receiver
+// is a known function (a plain function, or a method value bound to the receiver argument itself) or a single
+// constant; the key names that instantiation.
+func (eng *Engine) combinatorKey(callee *ssa.Function, args []AV) (string, bool) {
+	if len(args) != len(callee.Params) || len(args) < 2 {
+		return "", false
+	}
+	hasFn := false
+	key := callee.String()
+	for i, a := range args {
+		if i == 0 {
+			continue
+		}
+		_, isSig := callee.Params[i].Type().Underlying().(*types.Signature)
+		switch {
+		case isSig:
+			if a.K != KFunc || a.Fn == nil || len(a.Bind) > 1 {
+				return "", false
+			}
+			if len(a.Bind) == 1 {
+				b, r := a.Bind[0], args[0]
+				if b.K != r.K || b.Obj != r.Obj || b.Path != r.Path || b.Sym != r.Sym {
+					return "", false
+				}
+			}
+			hasFn = true
+			key += "|fn:" + a.Fn.String()
+		default:
+			v, ok := a.single()
+			if !ok {
+				return "", false
+			}
+			key += "|" + v
+		}
+	}
+	return key, hasFn
+}
+
+// thinWrapperCall: caller is a recursive one-block method of one parameter (its receiver) whose body is this
+// call, on its own receiver, and the return of its result.
+func (eng *Engine) thinWrapperCall(caller, callee *ssa.Function, in ssa.CallInstruction) bool {
+	if caller == nil || !eng.rec[caller] || len(caller.Blocks) != 1 || len(caller.Params) != 1 {
+		return false
+	}
+	com := in.Common()
+	if len(com.Args) == 0 || com.Args[0] != ssa.Value(caller.Params[0]) {
+		return false
+	}
+	v, ok := in.(ssa.Value)
+	if !ok || v.Referrers() == nil {
+		return false
+	}
+	for _, r := range *v.Referrers() {
+		switch r.(type) {
+		case *ssa.Return, *ssa.DebugRef:
+		default:
+			return false
+		}
+	}
+	for _, x := range caller.Blocks[0].Instrs {
+		if ci, ok := x.(ssa.CallInstruction); ok && ci != in {
+			return false
+		}
+	}
+	return true
 }
 
 func (eng *Engine) inline(callee *ssa.Function, in ssa.CallInstruction, args, bind []AV, env *Env) []*Env {
